@@ -133,6 +133,21 @@ def gen_cases(ctx):
         d = DIM[fam(el)]
         cases.append({"kind": "sequence", "elem": el, "verts": verts, "poly": star_polygon(rng, rng.random() < 0.5), "h": 1.5 if d == 2 else 2.0, "ext": 1.5, "layers": 1,
                       "seed": rng.randint(0, 10**6), "field": field(rng, d, deg), "iterative": it, "steps": steps(d)})
+    # meshes whose groups do not use the coordinate rows in order (orphan rows, permuted numbering, two main groups)
+    ren = [("QUAD4", 1, True, ["orphans", "mixed"]), ("TETRA4", 1, False, ["orphans"])]
+    if thorough:
+        ren += [("TRI3", 1, False, ["orphans", "permuted"]), ("TRI6", 2, False, ["orphans", "permuted"]), ("QUAD4", 1, True, ["permuted"]), ("QUAD9", 1, True, ["orphans", "mixed"] if False else ["orphans"]),
+                ("TETRA10", 2, False, ["orphans", "permuted"]), ("HEXA8", 1, True, ["orphans", "mixed"]), ("PRISM6", 1, False, ["orphans", "permuted"])]
+    for el, deg, it, variants in ren:
+        d = DIM[fam(el)]
+        cases.append({"kind": "renumber", "elem": el, "poly": star_polygon(rng, rng.random() < 0.5), "h": 1.6 if d == 2 else 2.2, "ext": 1.5, "layers": 1,
+                      "seed": rng.randint(0, 10**6), "field": field(rng, d, deg), "iterative": it, "variants": variants})
+    # order independence: integrate-then-locate vs locate-then-integrate, plain / moved / mirrored
+    orders = [("TRI3", None), ("TETRA4", tet)] + ([("QUAD4", None), ("TRI6", None), ("TETRA4", None), ("HEXA8", ghex), ("PRISM6", pri), ("TETRA10", tet), ("HEXA8", None)] if thorough else [])
+    for el, verts in orders:
+        d = DIM[fam(el)]
+        cases.append({"kind": "order", "elem": el, "verts": verts, "poly": star_polygon(rng, rng.random() < 0.5), "h": 1.8 if d == 2 else 2.2, "ext": 1.5, "layers": 1,
+                      "seed": rng.randint(0, 10**6), "motions": motions(rng, d)[:3]})
     # purity of the geometry queries (with and without the deformed-configuration option) and the
     # deformed-configuration option against an explicitly moved mesh
     pur = [("TRI3", True), ("PRISM6", False)] + ([("QUAD4", False), ("TRI6", True), ("TETRA4", True), ("HEXA8", False), ("TETRA10", False)] if thorough else [])
@@ -218,38 +233,15 @@ def run(ctx):
             open(os.path.join(ctx.build, "Gen_Gauss.v"), "w").write(T_gauss.emit_coq(dump))
             open(os.path.join(ctx.build, "Gen_Elems.v"), "w").write(T_elems.emit_coq(E))
             open(os.path.join(ctx.build, "Gen_Faces.v"), "w").write(T_faces.emit_coq(FT, ev_form, (trim, orient)))
-    # ---- 3a/3b. correspondence (run first: it provides the replays for broken obligations) ----
+    # ---- 3a/3b. correspondence (started first, collected after the proofs: it provides the replays for broken obligations) ----
     cases = gen_cases(ctx)
-    rc, out, err = ctx.impl_python(IMPL, input=json.dumps({"tables": True, "cases": cases}), timeout=1500)
-    results, tables = [], {}
-    if rc != 0:
-        ctx.obligation("corr:impl", False, err[-1500:])
-        ctx.violation("corr:impl-crash", "the implementation-side harness failed: " + (err.strip().splitlines() or ["rc=%d" % rc])[-1][:200], {"stderr": err[-3000:]}, found_input=False)
-    else:
-        resp = json.loads(out)
-        results, tables = resp["results"], resp["tables"]
-    # tables: translator vs live
-    mism = []
-    for name, r in FT.items():
-        live = tables.get(name)
-        if live is None:
-            if tables:
-                mism.append("%s missing in the implementation" % name)
-            continue
-        exp = {"surfaces": r["surfaces"], "segments": r["segments"], "triangles": r["triangles"],
-               "faces": r["faces"] if r["dim"] != 2 else r["faces"][0], "origin": [int(x) for x in r["origin"]]}
-        for p, v in exp.items():
-            lv = live[p]
-            if p == "origin" and isinstance(lv, list) and len(lv) == 1:
-                lv = lv * r["dim"]
-            if lv != v:
-                mism.append("%s.%s: translated %s, live %s" % (name, p, v, lv))
-            ctx.note_case("%s.%s" % (name, p))
-    if tables:
-        ctx.obligation("corr:index tables vs live properties", not mism, "; ".join(mism[:4]))
-        if mism:
-            ctx.violation("corr:tables", "translated index tables differ from the live properties: " + mism[0], {"mismatches": mism[:20]}, found_input=False)
+    ctx.log("translated; running %d correspondence cases" % len(cases))
+    # the harness (1 core) runs while the theorem files are compiled (2 cores)
+    from concurrent.futures import ThreadPoolExecutor
+    corr_pool = ThreadPoolExecutor(max_workers=1)
+    corr_fut = corr_pool.submit(ctx.impl_python, IMPL, input=json.dumps({"tables": True, "cases": cases}), timeout=1500)
     # ---- 2. Coq ------------------------------------------------------------------------------
+    ctx.log("compiling the theorem files")
     proofs = {}
     if dump is not None:
         ctx.copy_props("C08/C08_defs.v", "C08/C08_faces.v", "C08/C08_measure.v", "C08/C08_subparam.v", "C08/C08_invmap.v", "C08/C08_pointin.v",
@@ -280,6 +272,37 @@ def run(ctx):
                 chain_a.append(("C08_measure_thorough.v", "C08_subparam.v"))
             with ThreadPoolExecutor(max_workers=2) as ex:
                 list(ex.map(chain, chains))
+    ctx.log("theorem files done; collecting the correspondence results")
+    rc, out, err = corr_fut.result()
+    corr_pool.shutdown()
+    results, tables = [], {}
+    if rc != 0:
+        ctx.obligation("corr:impl", False, err[-1500:])
+        ctx.violation("corr:impl-crash", "the implementation-side harness failed: " + (err.strip().splitlines() or ["rc=%d" % rc])[-1][:200], {"stderr": err[-3000:]}, found_input=False)
+    else:
+        resp = json.loads(out)
+        results, tables = resp["results"], resp["tables"]
+    # tables: translator vs live
+    mism = []
+    for name, r in FT.items():
+        live = tables.get(name)
+        if live is None:
+            if tables:
+                mism.append("%s missing in the implementation" % name)
+            continue
+        exp = {"surfaces": r["surfaces"], "segments": r["segments"], "triangles": r["triangles"],
+               "faces": r["faces"] if r["dim"] != 2 else r["faces"][0], "origin": [int(x) for x in r["origin"]]}
+        for p, v in exp.items():
+            lv = live[p]
+            if p == "origin" and isinstance(lv, list) and len(lv) == 1:
+                lv = lv * r["dim"]
+            if lv != v:
+                mism.append("%s.%s: translated %s, live %s" % (name, p, v, lv))
+            ctx.note_case("%s.%s" % (name, p))
+    if tables:
+        ctx.obligation("corr:index tables vs live properties", not mism, "; ".join(mism[:4]))
+        if mism:
+            ctx.violation("corr:tables", "translated index tables differ from the live properties: " + mism[0], {"mismatches": mism[:20]}, found_input=False)
     ctx.sample({"theorem": "face_tables_close : forall t, In t all_ftabs -> fdim t = 3 -> forall l, sum of area vectors = 0 /\\ sum of 2*flux = 6 * measure_star (parent)",
                 "proof": "vm_compute on the regenerated tables through Qnorm_sound"})
     # ---- 4. violations --------------------------------------------------------------------------
@@ -291,7 +314,7 @@ def run(ctx):
         ctx.note_case(r["cls"])
     ctx.cov["corr_checks"] = len(results)
     ctx.cov["corr_cases"] = len(cases)
-    ctx.cov["case_kinds"] = {k: sum(1 for c in cases if c["kind"] == k) for k in ("geom", "locate_gmsh", "locate_single", "outside", "purity", "deformed", "faces", "sequence")}
+    ctx.cov["case_kinds"] = {k: sum(1 for c in cases if c["kind"] == k) for k in ("geom", "locate_gmsh", "locate_single", "outside", "purity", "deformed", "faces", "sequence", "renumber", "order")}
     ctx.cov["element_types_sampled"] = sorted(set(c["elem"] for c in cases))
     ctx.obligation("corr:geometry/location cases", not fails, "%d of %d checks fail; keys %s" % (len(fails), len(results), sorted(by_key)[:8]))
     if results:
